@@ -222,7 +222,7 @@ def run_case(case):
                                  True))
                 if action in ('quit_loop_world', 'quit_loop_default',
                               'quit_loop_handler_raises'):
-                    want_quits.append((first_frame + fi, current))
+                    want_quits.append((first_frame + fi, labels[current]))
                 if action in ('switch', 'loop_switch'):
                     current = 'B' if current == 'A' else 'A'
                     hits[action] = 1
